@@ -59,7 +59,7 @@ def vecs(l):
 
 def bias_block(sc, j):
     b = sc["biases"][j]
-    kw = {"H": "harmonic", "L": "linear", "W": "harmonicWalls", "A": "abmd", "G": "histogram", "F": "abf"}[b["kind"]]
+    kw = {"H": "harmonic", "L": "linear", "W": "harmonicWalls", "A": "abmd", "G": "histogram", "F": "abf", "FA": "abf"}[b["kind"]]
     L = [kw + " {", "  name b%d" % j, "  colvars " + " ".join("v%d" % i for i in b["vars"])]
     if b["tsf"] != 1:
         L.append("  timeStepFactor %d" % b["tsf"])
@@ -71,11 +71,13 @@ def bias_block(sc, j):
         L += ["  forceConstant %r" % b["k"], "  stoppingValue %r" % b["stop"], "  decreasing %s" % ("on" if b["dec"] else "off")]
     elif b["kind"] == "F":
         L += ["  applyBias off", "  fullSamples 1"]
+    elif b["kind"] == "FA":
+        L += ["  fullSamples %d" % b.get("full", 2)]
     L.append("}")
     return L
 
 
-RANK = {"F": 0, "A": 1, "H": 3, "W": 4, "G": 5, "L": 7}
+RANK = {"F": 0, "FA": 0, "A": 1, "H": 3, "W": 4, "G": 5, "L": 7}
 
 
 def impl_order(sc, subset):
@@ -84,8 +86,8 @@ def impl_order(sc, subset):
     return sorted(subset, key=lambda j: (RANK[sc["biases"][j]["kind"]], j))
 
 
-def config_text(sc, subset):
-    L = []
+def config_text(sc, subset, scripted=False):
+    L = ["scriptedColvarForces on"] if scripted else []
     for i, v in enumerate(sc["vars"]):
         L += colvar_block(i, v)
     for j in subset:
@@ -101,7 +103,8 @@ def scenario_lines(sc, subset, tag):
     L += ["samestep %d" % (1 if sc.get("samestep", True) else 0), "new"]
     if sc["it0"]:
         L.append("setstep %d" % sc["it0"])
-    L += ["config EOF"] + config_text(sc, subset) + ["EOF"]
+    scripted = bool(sc.get("script_runs")) and tag.split(":")[-1] in sc["script_runs"]
+    L += ["forcecmd clear", "config EOF"] + config_text(sc, subset, scripted) + ["EOF"]
     L.append("show cv 1 bias 0 tf 1 af 0" if sc.get("showtf") else "show cv 0 bias 0 tf 0 af 0")
     for ev in sc["events"]:
         if ev[0] in ("S", "R"):
@@ -112,6 +115,11 @@ def scenario_lines(sc, subset, tag):
                     L.append("eforce %d %s %s %s" % (a + 1, hx(f[0]), hx(f[1]), hx(f[2])))
             if ev[0] == "R":
                 L.append("runboundary")
+            if scripted:
+                L += ["forcecmd clear", "forcecmd cv version"]     # a script that may add no force at all
+                for i, g in enumerate(ev[3]):
+                    if g is not None:
+                        L.append("forcecmd cv colvar v%d addforce %r" % (i, float(g)))
             L += ["step", "mdump"]
         elif ev[0] == "X":
             if ev[1] in subset:
@@ -812,6 +820,89 @@ def oracle_ext(run, sc, R):
                     return
 
 
+def scripted_scenario(r, k):
+    """scripted forces (scriptedColvarForces + `cv colvar v addforce g` from the engine's force callback) as one more
+    contributor: run AB = restraint + script, A = restraint only, B = script only"""
+    nv = r.choice([1, 2])
+    vars_ = [{"tsf": 1, "w": 1.0, "comps": [{"main": [i], "ref": [], "axis": 2, "coeff": r.choice([1.0, 2.0, -1.0]), "np": r.choice([1, 1, 2])}]}
+             for i in range(nv)]
+    biases = [{"kind": r.choice(["H", "L", "W"]), "tsf": r.choice([1, 1, 2]), "vars": [0], "k": r.choice([1.0, 2.0]), "centers": [dy(r, -2, 2, 2)]}]
+    if nv == 2 and r.random() < 0.5:
+        biases.append({"kind": "H", "tsf": 1, "vars": [1], "k": 1.0, "centers": [dy(r, -2, 2, 2)]})
+    ev = []
+    for s_ in range(r.randint(6, 10)):
+        g = [dy(r, -4, 4, 2) if r.random() < 0.8 else None for _ in range(nv)]
+        ev.append(("S", [[0.0, 0.0, dy(r, -3, 3, 2)] for _ in range(2)] + [[0.0, 0.0, 0.0]], None, g))
+    return {"id": k, "family": "scripted", "natoms": 3, "mass": [1.0, 1.0, 1.0], "vars": vars_, "biases": biases, "it0": 0,
+            "events": ev, "A": list(range(len(biases))), "B": [], "script_runs": ["AB", "B"], "force_B": True}
+
+
+def oracle_scripted(run, sc, R):
+    """O10: the scripted force is one more contribution: atoms(restraints + script) = atoms(restraints) + atoms(script), and
+    the script alone gives g_i * coeff * np * x^(np-1) on the atom of variable i"""
+    sAB, sA, sB = R["AB"]["steps"], R["A"]["steps"], R["B"]["steps"]
+    calcs = [ev for ev in sc["events"] if ev[0] in ("S", "R")]
+    for s in range(min(first_error(sAB), first_error(sA), first_error(sB))):
+        fab, fa, fb_ = atomf(sAB[s], sc["natoms"]), atomf(sA[s], sc["natoms"]), atomf(sB[s], sc["natoms"])
+        vin = var_inputs(sc, calcs[s][1])
+        for i, v in enumerate(sc["vars"]):
+            g = calcs[s][3][i]
+            c = vin[i][0]
+            want = float((fr(g) if g is not None else 0) * c["coeff"] * c["np"] * c["val"] ** (c["np"] - 1))
+            if not close(fb_[i][2], want):
+                run.violation("pipeline:scripted:force", "scenario %d step %d: the script adds %r to v%d; atom %d receives %r, expected %r"
+                              % (sc["id"], s, g, i, i + 1, fb_[i][2], want), replay_of_scripted(sc, s))
+                return
+        for a in range(sc["natoms"]):
+            for q in range(3):
+                if not close(fab[a][q], fa[a][q] + fb_[a][q]):
+                    asleep = [i for i, iv in enumerate(sAB[s]["V"]) if not iv["act"]]
+                    sig = "pipeline:scripted:dropped-on-sleeping-variable" if asleep else "pipeline:scripted:superposition"
+                    run.violation(sig, "scenario %d step %d (it=%d): force on atom %d with restraints and script %r, restraints alone %r, script alone %r; inactive variables in the combined run: %s"
+                                  % (sc["id"], s, sAB[s]["it"], a + 1, fab[a], fa[a], fb_[a], asleep), replay_of_scripted(sc, s))
+                    return
+
+
+def replay_of_scripted(sc, s):
+    return {"kind": "scenario", "scenario": {k_: v_ for k_, v_ in sc.items() if not k_.startswith("_")}, "step_index": s,
+            "scripts": {t: "\n".join(scenario_lines(sc, sub, "%d:%s" % (sc["id"], t))) for t, sub in sc["_subsets"].items()},
+            "model_cases": {}}
+
+
+def abfcoupling_scenario(r, k):
+    """a force-reading bias next to another bias under the documented coupling: ABF (applyBias on) and a restraint on the
+    same one-atom distanceZ variable with subtractAppliedForce, lagged engine forces; A+B, ABF alone, restraint alone
+    (C08_abf_coupling: same samples, hence same ABF force, hence exact superposition)"""
+    v = {"tsf": 1, "w": 1.0, "extra": ["subtractAppliedForce on"],
+         "comps": [{"main": [0], "ref": [], "axis": 2, "coeff": 1.0, "np": 1, "onesite": True}]}
+    biases = [{"kind": "FA", "tsf": 1, "vars": [0], "k": 0.0, "full": r.choice([1, 2, 4])},
+              {"kind": r.choice(["H", "L", "H"]), "tsf": r.choice([1, 1, 2]), "vars": [0], "k": r.choice([1.0, 2.0, 4.0]),
+               "centers": [dy(r, -2, 2, 2)]}]
+    ev = []
+    z = dy(r, -2, 2, 2)
+    for s_ in range(r.randint(8, 14)):
+        if r.random() < 0.6:
+            z = dy(r, -3, 3, 2)
+        ev.append(("S", [[0.0, 0.0, z], [0.0, 0.0, 0.0]], [[0.0, 0.0, dy(r, -4, 4, 3)], [0.0, 0.0, 0.0]]))
+    return {"id": k, "family": "abfcoupling", "natoms": 2, "mass": [1.0, 1.0], "vars": [v], "biases": biases, "it0": 0,
+            "events": ev, "A": [0], "B": [1], "samestep": False}
+
+
+def oracle_abf_coupling(run, sc, R):
+    """O9: the ABF force is the same at every step with and without the other bias"""
+    sAB, sA = R["AB"]["steps"], R["A"]["steps"]
+    nz = 0
+    for s in range(min(first_error(sAB), first_error(sA))):
+        fab = [b for b in sAB[s]["B"] if b["name"] == "b0"][0]["F"]
+        fa = [b for b in sA[s]["B"] if b["name"] == "b0"][0]["F"]
+        nz += 1 if any(x != 0.0 for x in fa) else 0
+        if len(fab) != len(fa) or any(not close(x, y) for x, y in zip(fab, fa)):
+            run.violation("pipeline:abf-coupling:force", "scenario %d step %d (it=%d): the ABF force is %s next to the restraint and %s alone (subtractAppliedForce, lagged forces)"
+                          % (sc["id"], s, sAB[s]["it"], fab, fa), replay_of(sc, {"AB": [0, 1], "A": [0]}, {"step_index": s}))
+            return nz
+    return nz
+
+
 def coupling_scenario(r, k):
     """lagged engine forces that include the Colvars forces, a one-atom distanceZ variable with subtractAppliedForce and
     outputTotalForce, two restraints: the total force reported at step t+1 must be the engine's own force of step t,
@@ -878,11 +969,13 @@ def run_batch(unit, model, scs, d):
             subsets = {"A": sc["A"]}
         if sc.get("zero_run"):
             subsets["0"] = []
+        if sc.get("force_B"):
+            subsets = {"AB": AB, "A": sc["A"], "B": []}
         sc["_subsets"] = subsets
         for t, sub in subsets.items():
             tag = "%d:%s" % (sc["id"], t)
             L += scenario_lines(sc, sub, tag)
-            if all(sc["biases"][j]["kind"] != "F" for j in sub) and sc["family"] != "ext":
+            if all(sc["biases"][j]["kind"] not in ("F", "FA") for j in sub) and sc["family"] not in ("ext", "scripted"):
                 M.append(model_case(sc, sub))
                 keys.append(tag)
     rc, out, err = V.run_lines(unit, L, timeout=1200, cwd=d)
@@ -933,11 +1026,18 @@ def check(run):
     for _ in range(12 if quick else 300):
         scs.append(ext_scenario(r, k))
         k += 1
+    for _ in range(12 if quick else 300):
+        scs.append(abfcoupling_scenario(r, k))
+        k += 1
+    for _ in range(12 if quick else 300):
+        scs.append(scripted_scenario(r, k))
+        k += 1
 
     # batches keep the harness input small
     BATCH = 200
     windows = 0
     zero_skipped = 0
+    abf_nonzero = 0
     for b0 in range(0, len(scs), BATCH):
         batch = scs[b0:b0 + BATCH]
         impl, mod, (rc, err) = run_batch(unit, model, batch, d)
@@ -969,7 +1069,7 @@ def check(run):
                 if tag in mod:
                     msteps = parse_model_line(mod[tag], sc["natoms"])
                     compare_model(run, sc, t, sub, msteps, isteps)
-                if sc["family"] not in ("nonbiasing", "ext"):
+                if sc["family"] not in ("nonbiasing", "ext", "abfcoupling", "scripted"):
                     oracle_spec(run, sc, t, sub, isteps)
                     w = oracle_impulse(run, sc, t, sub, isteps)
                     windows += w
@@ -979,12 +1079,16 @@ def check(run):
                 if t in ("AB",) and any(sum(b["act"] for b in stp["B"]) >= 2 for stp in isteps):
                     nontriv = True
             if "AB" in R:
-                if sc["family"] != "ext":     # on an extended variable the spring force is in every run: O8 instead
+                if sc["family"] == "scripted":
+                    oracle_scripted(run, sc, R)
+                elif sc["family"] != "ext":     # on an extended variable the spring force is in every run: O8 instead
                     oracle_superposition(run, sc, R)
                 if sc["family"] == "nonbiasing":
                     oracle_nonbiasing(run, sc, R)
                 if sc["family"] == "ext":
                     oracle_ext(run, sc, R)
+                if sc["family"] == "abfcoupling":
+                    abf_nonzero += oracle_abf_coupling(run, sc, R)
                 if sc["family"] == "coupling":
                     # second model pass: tf_trace on the system forces and the applied forces of the pipeline model
                     tl, tk = [], []
@@ -1009,7 +1113,8 @@ def check(run):
                 run.sample({"scenario": {kk: vv for kk, vv in sc.items() if not kk.startswith("_")},
                             "script_AB": scenario_lines(sc, sorted(sc["A"] + sc["B"]), "x")[:60]})
     run.cov["correspondence"].update({"scenarios": len(scs), "impulse_windows_checked": windows,
-                                      "coupling_steps_with_total_force_exactly_zero": zero_skipped})
+                                      "coupling_steps_with_total_force_exactly_zero": zero_skipped,
+                                      "abf_coupling_steps_with_nonzero_abf_force": abf_nonzero})
 
 
 def replay(path):
